@@ -188,9 +188,10 @@ impl Arena {
 
     #[allow(clippy::mut_from_ref)]
     pub fn alloc_uninit_slice<T>(&self, count: usize) -> &mut [MaybeUninit<T>] {
-        let bytes = mem::size_of::<T>() * count;
-        let alignment = mem::align_of::<T>();
-        let ptr = self.alloc_raw(bytes, alignment).unwrap();
+        // `Layout::array` rejects element counts whose byte size does not fit `isize`,
+        // which a plain multiplication would silently wrap in release builds.
+        let layout = Layout::array::<T>(count).expect("slice size overflows isize");
+        let ptr = self.alloc_raw(layout.size(), layout.align()).unwrap();
         unsafe { slice::from_raw_parts_mut(ptr.cast().as_ptr(), count) }
     }
 
